@@ -21,3 +21,12 @@ Proof. induction 1; simpl; lia. Qed.
 
 Lemma subseq_nil {A} (l : list A) : subseq [] l.
 Proof. induction l; constructor; assumption. Qed.
+
+Lemma NoDup_app_intro {A} (l1 l2 : list A) :
+  NoDup l1 -> NoDup l2 -> (forall x, In x l1 -> In x l2 -> False) -> NoDup (l1 ++ l2).
+Proof.
+  induction l1 as [|a l1 IH]; simpl; intros H1 H2 H; [exact H2|].
+  inversion H1 as [|? ? Hn Hd]; subst. constructor.
+  - rewrite in_app_iff. intros [X|X]; [contradiction|]. eapply H; [left; reflexivity|exact X].
+  - apply IH; [exact Hd|exact H2|]. intros x Hx1 Hx2. eapply H; [right; exact Hx1|exact Hx2].
+Qed.
